@@ -671,9 +671,26 @@ struct Dumper
                 if (inRoots(patternOf(FD)->getLocation())) {
                     J.attribute("ck", funcKey(FD));
                 }
-            } else if (isa<BindingDecl>(D)) {
+            } else if (const auto *BD = dyn_cast<BindingDecl>(D)) {
                 J.attribute("dk", "binding");
                 J.attribute("d", declId(D));
+                // provenance of a structured binding: the decomposed variable, the position, and the member it names (pairs/structs)
+                if (const auto *DD = dyn_cast_or_null<DecompositionDecl>(BD->getDecomposedDecl())) {
+                    J.attribute("bof", declId(DD));
+                    int ix = 0;
+                    for (const auto *B : DD->bindings()) {
+                        if (B == BD) {
+                            break;
+                        }
+                        ++ix;
+                    }
+                    J.attribute("bix", ix);
+                }
+                if (const Expr *BE = BD->getBinding()) {
+                    if (const auto *ME = dyn_cast<MemberExpr>(BE->IgnoreParenImpCasts())) {
+                        J.attribute("bm", ME->getMemberDecl()->getDeclName().getAsString());
+                    }
+                }
             } else {
                 J.attribute("dk", "other");
             }
